@@ -344,6 +344,11 @@ def twins(ctx: Ctx):
     qa, qb = "lcm.solve_brute.solve_continuous_problem", "lcm.simulate.solve_continuous_problem"
     fa, fb = prog.frame(qa), prog.frame(qb)
     na, nb = param_names(prog.funcs[qa].node), param_names(prog.funcs[qb].node)
+    # one twin may simply delegate to the other: compare what they compute (calls between them inlined)
+    only_twins = frozenset(q for q in prog.funcs if q not in (qa, qb))
+    ra_, rb_ = prog.expand(fa.ret, skip=only_twins), prog.expand(fb.ret, skip=only_twins)
+    fa = type(fa)(qualname=fa.qualname, module=fa.module, env=fa.env, ret=ra_, raises=fa.raises, effects=fa.effects, params=fa.params)
+    fb = type(fb)(qualname=fb.qualname, module=fb.module, env=fb.env, ret=rb_, raises=fb.raises, effects=fb.effects, params=fb.params)
     if len(na) == len(nb):
         rb = _rename(fb.ret, qb, qa, nb, na)
         x, y = norm(fa.ret), norm(rb)
